@@ -413,3 +413,23 @@ pub fn abrupt_prelude(rng: &mut Rng, sc: &ConnScenario) -> ConnScenario {
 pub fn gen_info(rng: &mut Rng) -> (i8, i32, i32, i32, u8) {
     (*rng.pick(&[-128i8, -1, 0, 2, 10, 32, 127]), rng.below(3) as i32, rng.below(2) as i32, rng.below(3) as i32, rng.below(256) as u8)
 }
+
+/// The same cookie body with the fields in the order (and the property spelling) in which the router itself writes
+/// them - what a client that was issued a cookie really holds.
+pub fn cookie_json_as_issued(timestamp: u64, client_addr: &str, id: &Identity, target: Option<&str>) -> Vec<u8> {
+    let q = |s: &str| serde_json::to_string(s).unwrap();
+    let props: Vec<String> = id
+        .props
+        .iter()
+        .map(|p| format!("{{\"name\":{},\"value\":{},\"signature\":{}}}", q(&p.name), q(&p.value), p.signature.as_deref().map(q).unwrap_or_else(|| "null".into())))
+        .collect();
+    format!(
+        "{{\"timestamp\":{timestamp},\"client_addr\":{},\"user_name\":{},\"user_id\":{},\"target\":{},\"profile_properties\":[{}],\"extra\":{{}}}}",
+        q(client_addr),
+        q(&id.name),
+        q(&uuid_hyph(id.uuid)),
+        target.map(q).unwrap_or_else(|| "null".into()),
+        props.join(",")
+    )
+    .into_bytes()
+}
